@@ -248,6 +248,53 @@ def gen_tie_case(rng: random.Random, n: int):
     return conds, queries
 
 
+def deep_chain(rng: random.Random, atoms, op="&", pos=0.7):
+    """left-nested chain (((l1 op l2) op l3) ... ) over the given atoms, as the parser builds `l1,l2,l3,...`: tree height
+    len(atoms) - 1, so with >= 6 atoms the innermost literals sit below depth 5"""
+    lits = [("a", a) if rng.random() < pos else ("!", ("a", a)) for a in atoms]
+    f = lits[0]
+    for l in lits[1:]:
+        f = (op, f, l)
+    return f, lits
+
+
+def flip_innermost(f, k=1):
+    """the same chain with its k innermost literals negated"""
+    if f[0] in ("&", "|") and f[1][0] in ("&", "|"):
+        return (f[0], flip_innermost(f[1], k), f[2])
+    if f[0] in ("&", "|"):
+        a, b = f[1], f[2]
+        na = a[1] if a[0] == "!" else ("!", a)
+        nb = b[1] if b[0] == "!" else ("!", b)
+        return (f[0], na, nb if k >= 2 else b)
+    return f[1] if f[0] == "!" else ("!", f)
+
+
+def gen_deep_pairs(rng: random.Random, n: int, pairs=2, conds=()):
+    """pairs of queries whose antecedents are long conjunction chains that differ only in the innermost literal(s); the
+    innermost atoms are antecedent atoms of the base and the consequent is a consequent literal of the base where possible,
+    so that the two members of a pair tend to get different answers"""
+    ante_atoms = [a[1] for _, a in conds if a[0] == "a"]
+    cons_lits = [b for b, _ in conds if b[0] == "a" or (b[0] == "!" and b[1][0] == "a")]
+    out = []
+    for _ in range(pairs):
+        atoms = list(range(n))
+        rng.shuffle(atoms)
+        if cons_lits and rng.random() < 0.8:
+            x = rng.choice(cons_lits)
+            x = x if rng.random() < 0.7 else (x[1] if x[0] == "!" else ("!", x))
+        else:
+            x = ("a", atoms[-1]) if rng.random() < 0.7 else ("!", ("a", atoms[-1]))
+        xa = x[1][1] if x[0] == "!" else x[1]
+        inner = [a for a in dict.fromkeys(rng.sample(ante_atoms, min(2, len(ante_atoms)))) if a != xa]
+        rest = [a for a in atoms if a not in inner and a != xa]
+        order = inner + rest
+        chain, _ = deep_chain(rng, order[:max(6, len(order) - rng.randint(0, 1))], pos=0.8)
+        out.append((x, chain))
+        out.append((x, flip_innermost(chain, rng.choice([1, 1, 2]))))
+    return out
+
+
 def gen_conj_case(rng: random.Random, n: int):
     """conditionals with conjunctive consequents next to simple ones on the same guard, (x,y|g), (z|g): one conditional
     contributes several soft clauses, so MaxSAT cost and number of falsified conditionals differ; returns (conds, queries)"""
